@@ -81,7 +81,10 @@ Inductive fault :=
 | NoFault
 | FIO                  (* the operation fails outright *)
 | FRead (n : nat)      (* a read fails after n bytes *)
-| FReplace (b : bytes) (* the bytes read / written / in flight are replaced by b *).
+| FReplace (b : bytes) (* the bytes read / written / in flight are replaced by b *)
+| FRespond (j : id) (b : bytes)
+    (* the peer answers with b LABELLED as chunk j (the casync CHUNK message carries a chunk id
+       next to the data); where an answer has no label this is FReplace b *).
 
 (* [w_obj k i] is the object stored for chunk i in backend k: ARBITRARY bytes
    (flipped, truncated, empty, another chunk's object, valid zstd of other
@@ -112,7 +115,7 @@ Definition raw_fetch (k : nat) (i : id) (w : world) : fetch * world :=
   let w' := w_log o w in
   match w_fault w (w_hist w) o with
   | FIO => (IOErr, w')
-  | FReplace b => (Found b, w')
+  | FReplace b | FRespond _ b => (Found b, w')
   | FRead n => match w_obj w k i with
                | Some b => (ReadErr (firstn n b), w')
                | None => (NotFound, w')
@@ -128,7 +131,7 @@ Definition raw_put (k : nat) (i : id) (b : bytes) (w : world) : res unit * world
   let w' := w_log o w in
   match w_fault w (w_hist w) o with
   | NoFault => (Ok tt, w_store k i b w')
-  | FReplace b' => (Ok tt, w_store k i b' w')
+  | FReplace b' | FRespond _ b' => (Ok tt, w_store k i b' w')
   | _ => (Err EOther, w')
   end.
 
@@ -166,9 +169,13 @@ Inductive stack :=
 | Http (h : nat) (sconv : convs) (skip uncompressed : bool) (retry : nat) (s : stack)
     (* RemoteHTTP client (skip, uncompressed, retry) talking over hop h to
        desync's HTTPHandler with converters sconv in front of store s *)
-| Proto (h : nat) (s : stack).
+| Proto (h : nat) (s : stack)
     (* RemoteSSH / Protocol.RequestChunk talking over hop h to a
        ProtocolServer in front of store s *)
+| Foreign (k : nat).
+    (* a Store implementation outside desync's own that trusts its content: it returns
+       NewChunk(<what backend k holds>), a chunk whose ID() is derived from the data and not
+       from the request (desync's TestStore does that; so does any foreign casync server) *)
 
 Section ChunkVerify.
   Variable H : bytes -> id.
@@ -406,7 +413,7 @@ Section ChunkVerify.
     match fl with
     | FIO | FRead _ => retry w2                       (* client.Do / ReadAll error *)
     | _ =>
-        let r' := match fl, r with FReplace b, R200 _ => R200 b | _, _ => r end in
+        let r' := match fl, r with FReplace b, R200 _ | FRespond _ b, R200 _ => R200 b | _, _ => r end in
         match r' with
         | R200 b => (new_chunk_from_storage i b (converters unc) skip, w2)
         | R404 => (Err EMissing, w2)
@@ -415,30 +422,56 @@ Section ChunkVerify.
         end
     end.
 
-  (* Protocol.RequestChunk against ProtocolServer.Serve (one request on a fresh session) *)
-  Definition proto_get (h : nat) (inner : getter) (i : id) (w : world) : res chunk * world :=
+  (* Protocol.RequestChunk, case CaProtocolChunk: the message body is flags | chunk id | data.
+     The id in the message is not used: the chunk is built for, and checked against, the id
+     that was REQUESTED. *)
+  Definition proto_answer (requested label : id) (body : bytes) : res chunk :=
+    new_chunk_from_storage requested body [Zstd] false.
+
+  (* NOT the code: the client that believes the label ("use what the server says it sends").
+     Kept for the refutation theorem that shows why the requested id must be used. *)
+  Definition proto_answer_respid (requested label : id) (body : bytes) : res chunk :=
+    new_chunk_from_storage label body [Zstd] false.
+
+  (* Protocol.RequestChunk against ProtocolServer.Serve (one request on a fresh session).
+     The server labels its answer with chunk.ID() of what its store returned. *)
+  Definition proto_get_with (answer : id -> id -> bytes -> res chunk)
+             (h : nat) (inner : getter) (i : id) (w : world) : res chunk * world :=
     match inner w with
     | (Err EMissing, w1) =>
         let (fl, w2) := net h i w1 in
         match fl with
         | NoFault => (Err EMissing, w2)           (* CaProtocolMissing *)
-        | FReplace b => (new_chunk_from_storage i b [Zstd] false, w2)
+        | FReplace b => (answer i i b, w2)
+        | FRespond j b => (answer i j b, w2)
         | FIO => (Err EEof, w2)                   (* stream closed before the answer *)
         | FRead _ => (Err EOther, w2)             (* stream closed inside the answer *)
         end
     | (Err _, w1) => (Err EEof, w1)               (* the server gives up; the client reads EOF *)
     | (Ok c, w1) =>
-        match data_of c with
-        | None => (Err EEof, w1)                  (* chunk.Data() fails on the server: it gives up *)
-        | Some b =>
+        match chunk_data c with
+        | (None, _) => (Err EEof, w1)             (* chunk.Data() fails on the server: it gives up *)
+        | (Some b, c1) =>
+            let label := fst (chunk_id c1) in     (* SendProtocolChunk(chunk.ID(), ...) *)
             let (fl, w2) := net h i w1 in
             match fl with
-            | NoFault => (new_chunk_from_storage i (zcomp b) [Zstd] false, w2)
-            | FReplace b' => (new_chunk_from_storage i b' [Zstd] false, w2)
+            | NoFault => (answer i label (zcomp b), w2)
+            | FReplace b' => (answer i label b', w2)
+            | FRespond j b' => (answer i j b', w2)
             | FIO => (Err EEof, w2)
             | FRead _ => (Err EOther, w2)
             end
         end
+    end.
+
+  Definition proto_get := proto_get_with proto_answer.
+
+  (* GetChunk of a store that derives the chunk from its content alone *)
+  Definition foreign_get (k : nat) (i : id) (w : world) : res chunk * world :=
+    match raw_fetch k i w with
+    | (Found b, w1) => (Ok (new_chunk b), w1)
+    | (NotFound, w1) => (Err EMissing, w1)
+    | (_, w1) => (Err EOther, w1)
     end.
 
   (* GetChunk of every store stack *)
@@ -452,6 +485,7 @@ Section ChunkVerify.
     | Swap s' => get s' i w
     | Http h sconv skip unc retry s' => http_loop (pred retry) h sconv skip unc (get s' i) i w
     | Proto h s' => proto_get h (get s' i) i w
+    | Foreign k => foreign_get k i w
     end.
 
   (* A sequence of requests against the same stack; the world is threaded through. *)
@@ -481,6 +515,7 @@ Section ChunkVerify.
     | Dedup s' | Swap s' => verifying s'
     | Http _ _ skip _ _ _ => negb skip
     | Proto _ _ => true
+    | Foreign _ => false
     end.
 
   (* Verification is enabled at every leaf and at every network client, also behind
@@ -494,6 +529,7 @@ Section ChunkVerify.
     | Dedup s' | Swap s' => all_verifying s'
     | Http _ _ skip _ _ s' => negb skip && all_verifying s'
     | Proto _ s' => all_verifying s'
+    | Foreign _ => false
     end.
 
   (* ---------- consumers ---------- *)
@@ -583,6 +619,7 @@ Section ChunkVerify.
     | Dedup s' | Swap s' => never_eof s'
     | Http _ _ _ _ _ _ => true
     | Proto _ _ => false
+    | Foreign _ => true
     end.
 
   (* A consumer run over the rows of an index, one after the other. *)
